@@ -1,6 +1,6 @@
 """Human-written level texts for MANIFEST.json (kept apart from the machinery)."""
 
-HOOK_COMMITS = ["ad3b062"]
+HOOK_COMMITS = ["ad3b062", "ff4e286"]
 
 NOT_APPLICABLE = {}
 
